@@ -75,7 +75,7 @@ type Exec struct {
 type Trace struct {
 	Execs   []Exec   `json:"execs"`
 	Kernels []Kernel `json:"kernels"`
-	Style   int      `json:"style"` // 0: layout of the sample (markers, blank lines); 1: compact, no blank lines
+	Style   int      `json:"style"` // 0: layout of the sample (markers, blank lines); 1: compact, no blank lines; 2: compact without any frame line
 }
 
 func (t *Trace) counts() (kernels, blocks, warps, insts int) {
@@ -177,12 +177,19 @@ func (k Kernel) text(style int) string {
 		h.Name, h.ID, h.Grid[0], h.Grid[1], h.Grid[2], h.BlockDim[0], h.BlockDim[1], h.BlockDim[2], h.Shmem, h.Nregs, h.BinVer, h.Stream,
 		uint64(h.ShmemBase), uint64(h.LocalBase), h.Nvbit, h.Tracer, li)
 	nl := "\n"
-	if style == 1 {
+	if style >= 1 {
 		nl = ""
 	}
-	b.WriteString(nl + "#traces format = [line_num] PC mask dest_num [reg_dests] opcode src_num [reg_srcs] mem_width [adrrescompress?] [mem_addresses] immediate\n" + nl + nl)
+	// style 2: no frame lines at all (the reader finds sections by their "thread block" / "warp" / "insts" lines, so a
+	// "thread block" line may directly follow the header or the previous block's last instruction)
+	frames := style != 2
+	if frames {
+		b.WriteString(nl + "#traces format = [line_num] PC mask dest_num [reg_dests] opcode src_num [reg_srcs] mem_width [adrrescompress?] [mem_addresses] immediate\n" + nl + nl)
+	}
 	for _, blk := range k.Blocks {
-		b.WriteString(nl + "#BEGIN_TB\n" + nl)
+		if frames {
+			b.WriteString(nl + "#BEGIN_TB\n" + nl)
+		}
 		fmt.Fprintf(&b, "thread block = %d,%d,%d\n", blk.ID[0], blk.ID[1], blk.ID[2])
 		for _, w := range blk.Warps {
 			fmt.Fprintf(&b, "%swarp = %d\ninsts = %d\n", nl, w.ID, len(w.Insts))
@@ -190,7 +197,9 @@ func (k Kernel) text(style int) string {
 				b.WriteString(in.line() + "\n")
 			}
 		}
-		b.WriteString(nl + "#END_TB\n")
+		if frames {
+			b.WriteString(nl + "#END_TB\n")
+		}
 	}
 	return b.String()
 }
